@@ -40,7 +40,7 @@ package opt
 //@   modifies nothing
 //@ func (Cluster).GetStore
 //@   assumed
-//@   ensures result != nil ==> ufb("storeKnown", self, id) && allocated(result)
+//@   ensures result != nil ==> ufb("storeKnown", self, id) && allocated(result) && (result.meta != nil ==> 0 <= result.meta.State && result.meta.State <= 2)
 //@   modifies nothing
 //@ func (Cluster).GetRegionStores
 //@   assumed
